@@ -117,6 +117,22 @@ func (e *Exec) envForFunc(fr *Frame, st, old *State, result *Val) *Env {
 func (e *Exec) envForLoop(fr *Frame, h *ssa.BasicBlock, st *State) *Env {
 	env := e.envForFunc(fr, st, fr.entryState, nil)
 	env.block = h
+	// indices of enclosing loops: _i<k>, _n<k> for the loop with ordinal k
+	for hd, ord := range fr.loopOrd {
+		if hd == h || !hd.Dominates(h) || !naturalLoop(hd)[h] {
+			continue
+		}
+		for _, ins := range hd.Instrs {
+			phi, ok := ins.(*ssa.Phi)
+			if !ok {
+				break
+			}
+			if v, have := fr.vals[phi]; have && phi.Comment == "rangeindex" {
+				env.vars[fmt.Sprintf("_i%d", ord)] = v
+				env.vars[fmt.Sprintf("_n%d", ord)] = Val{T: "(+ " + v.T + " 1)", S: SInt}
+			}
+		}
+	}
 	for _, ins := range h.Instrs {
 		phi, ok := ins.(*ssa.Phi)
 		if !ok {
